@@ -160,6 +160,9 @@ fn rejection_texts() -> Vec<String> {
         if regex::Regex::new(p).is_err() {
             v.push(format!("CREATE TABLE t(line = '{}', line[1] => x TEXT);", p));
             v.push(format!("CREATE TABLE t('{}' => x INT);", p));
+            // a pattern that no column refers to, before / after a good one, and in split mode: still rejected
+            v.push(format!("CREATE TABLE t(unused = '{}', line = '(.*)', line[1] => x TEXT);", p));
+            v.push(format!("CREATE TABLE t(line = '(.*)', other = split '{}', line[1] => x TEXT);", p));
             v.push(format!("CREATE TABLE ok(line = '(.*)', line[1] => x TEXT); CREATE TABLE t(line = split '{}', line[1] => x TEXT);", p));
         }
     }
